@@ -40,6 +40,10 @@ func verifC06(native bool, nEntries int, integer bool) {
 		if err != nil {
 			return err
 		}
+		// an application DBI that was created with flags but holds no entry (yet)
+		if _, err := txn.OpenDBI("empty-ints", lmdb.Create|0x08); err != nil {
+			return err
+		}
 		if err := txn.Put(priv, []byte("x"), vStoredBytes(5, 1, 0, 0, nil, []byte("y")), 0); err != nil {
 			return err
 		}
@@ -133,12 +137,22 @@ func verifC06(native bool, nEntries int, integer bool) {
 		zz.Assert(ni.SyncerName == "db" && ni.InstanceID == "inst" && ni.Kind == snapshot.KindSnapshot, "C06/name/components")
 		zz.Assert(ni.Timestamp.UnixNano() == tsn, "C06/name/time-equals-meta-time")
 	}
-	// exactly the application DBI, no private DBIs
-	zz.Assert(len(msg.Databases) == 1, "C06/dbis/exactly-the-application-dbis")
-	if len(msg.Databases) != 1 {
+	// exactly the application DBIs, no private DBIs
+	zz.Assert(len(msg.Databases) == 2, "C06/dbis/exactly-the-application-dbis")
+	if len(msg.Databases) != 2 {
 		return
 	}
 	d := msg.Databases[0]
+	for _, x := range msg.Databases {
+		if x.Name() == "d" {
+			d = x
+		} else {
+			zz.Assert(x.Name() == "empty-ints", "C06/dbis/names")
+			zz.Assert(x.Flags() == 0x08, "C06/dbi/empty-dbi-keeps-its-flags")
+			ee, eerr := vEntries(x)
+			zz.Assert(eerr == nil && len(ee) == 0, "C06/dbi/empty-dbi-has-no-entries")
+		}
+	}
 	zz.Assert(d.Name() == "d", "C06/dbi/name")
 	zz.Assert(d.Flags() == uint64(flags), "C06/dbi/original-flags")
 	zz.Assert(d.Transform() == "", "C06/dbi/no-transform")
